@@ -186,8 +186,10 @@ def rand_ops(r, n, timed, length):
         elif k < 0.45:
             mode = r.choice(["L", "L", "R", "P"])
             if mode == "P":
+                # exact rationals of a propagated chain grow with the pose index; repeated propagation multiplies
+                # that growth, so the number of propagations per history is bounded by the trajectory length
                 props += 1
-                if n > 40 and props > 1:
+                if props > (3 if n <= 5 else 2 if n <= 12 else 1):
                     mode = "R"
             ops.append({"op": "tf", "mode": mode, "T": rand_transform(r, r.choice(["se3", "se3", "sim3"]))})
         elif k < 0.52:
@@ -494,27 +496,40 @@ def maxdiff(a, b):
 
 
 class Tol:
-    """float slack of a history: grows with the number of steps, the number of poses (propagation accumulates
-    along the path) and the largest coordinate seen so far"""
+    """float slack of a history.  Rotations: grows with the number of steps and of poses (propagation accumulates along
+    the path).  Positions: an absolute error bound carried through the history — every step adds a few ulps of the largest
+    coordinate involved and multiplies what is already there by the amplification of the operation (scale factors > 1;
+    a Sim(3) propagation multiplies by the scale once per pose)"""
     def __init__(self, n):
-        self.n, self.k, self.mag = n, 0, 1.0
+        self.n, self.k, self.mag, self.err, self.last = n, 0, 1.0, 0.0, 1.0
 
     def see(self, snap, op=None):
         self.k += 1
+        ratio = 1.0
         if len(snap["pos"]):
             m = float(np.max(np.abs(snap["pos"])))
             if math.isfinite(m):
                 self.mag = max(self.mag, m)
+                ratio, self.last = max(1.0, m / self.last), max(m, 1e-300)
+        amp = 1.0
         if op and "T" in op:
             self.mag = max(self.mag, max(abs(v) for v in op["T"]))
+            T = np.array(op["T"], dtype=float).reshape(4, 4)
+            sc = abs(float(np.linalg.det(T[:3, :3]))) ** (1.0 / 3.0)
+            amp = max(1.0, sc) ** (self.n if op["mode"] == "P" else 1)
         if op and "ref" in op:
             self.mag = max(self.mag, max(abs(v) for v in op["ref"]))
+        if op and op["op"] == "sc":
+            amp = max(1.0, abs(op["s"]))
+        if op and op["op"] == "al":
+            amp = 4.0 * ratio      # scale correction multiplies the positions (and their error) by c
+        self.err = amp * (self.err + 256 * U * (self.n + 1) * self.mag)
 
     def rot(self):
         return 64 * U * (self.k + 1) * (self.n + 1)
 
     def pos(self):
-        return self.rot() * self.mag * 4
+        return self.err
 
 
 def cmp_read(kind, impl, model, tol):
